@@ -1,4 +1,4 @@
-import Flodym.Driver.ArrayCmds
+import Flodym.Driver.NpCmds
 open Flodym.Driver
 
 def step (s : Store) (line : String) : Store × String :=
@@ -14,6 +14,9 @@ def step (s : Store) (line : String) : Store × String :=
     | some r => r
     | none =>
     match dimsStep s toks with
+    | some r => r
+    | none =>
+    match npStep s toks with
     | some r => r
     | none => (s, "bad-op")
 
